@@ -675,6 +675,139 @@ def c20_check(prop, tier, seed, replay):
 CHECKS["C20"] = c20_check
 
 
+# ----------------------------------------------------------------------------- C19: orchestrator election
+ELECTION_TRACE_CFG = """SPECIFICATION TSpec
+CONSTANTS
+  Me <- TraceMe
+  Peers_ <- TracePeers
+  Foreign_ <- TraceForeign
+  Quorum <- TraceQuorum
+  MyPrio <- TracePrio
+  QuorumTooLow <- TraceTooLow
+  EDev = {}
+  MaxAhead = @AHEAD@
+INVARIANTS CountInv OneProcess NotAccepted
+PROPERTY TraceC19
+CHECK_DEADLOCK FALSE
+"""
+
+
+def c19_check(prop, tier, seed, replay):
+    import orch, hashlib
+    vlib.build_harness()
+    d = vlib.workdir(prop)
+    rnd = random.Random(seed)
+    violations = []
+
+    def validate(trace, ahead):
+        sub = os.path.join(d, "ve_" + hashlib.md5((trace + str(ahead)).encode()).hexdigest()[:10])
+        os.makedirs(sub, exist_ok=True)
+        for f in os.listdir(d):
+            if f.endswith(".tla"):
+                shutil.copy(os.path.join(d, f), sub)
+        env = dict(vlib.TRACE_ENV)
+        env["TRACE"] = trace
+        out = vlib.tlc(sub, "Trace_Election", ELECTION_TRACE_CFG.replace("@AHEAD@", str(ahead)), workers=1, timeout=900, env=env, heap="3g")
+        shutil.rmtree(os.path.join(sub, "md"), ignore_errors=True)
+        if "Invariant NotAccepted is violated" in out:
+            return True, {}
+        st, err = vlib.tlc_stats(out), vlib.tlc_error(out)
+        if st is None and err is None:
+            raise ToolError("TLC gave no result:\n" + out[-3000:])
+        if err and not ("Invariant" in err or "Action property" in err or "action property" in err.lower()):
+            raise ToolError("TLC evaluation error on election trace:\n" + out[-4000:])
+        return False, {"err": err, "states": st["distinct"] if st else 0, "tail": out[-500:]}
+
+    def explain(trace):
+        ok, det = validate(trace, 6)
+        if not ok and not det.get("err"):
+            # the log of a starved harness can lag far behind the process: allow the explanation to run further ahead
+            ok, det = validate(trace, 20)
+        return ok, det
+
+    def run_config(ic):
+        i, cfg, scs = ic
+        runs = [orch.run_scenario(cfg, steps, d, f"c{i}_s{k}") for k, steps in enumerate(scs)]
+        tr = os.path.join(d, f"tr_c{i}.ndjson")
+        orch.write_trace(tr, cfg, runs)
+        ok, det = explain(tr)
+        bad = None
+        if not ok:
+            for k, evs in enumerate(runs):
+                t1 = os.path.join(d, f"tr_c{i}_s{k}.ndjson")
+                orch.write_trace(t1, cfg, [evs])
+                ok1, det1 = explain(t1)
+                if not ok1:
+                    bad = {"config": cfg, "steps": scs[k], "observed": evs, "detail": det1}
+                    break
+            if bad is None:
+                bad = {"config": cfg, "steps": scs, "observed": runs, "detail": det}
+        nev = sum(len(r) for r in runs)
+        started = sum(1 for r in runs for e in r if e["e"] == "proc" and e["m"]["t"] == "start")
+        refused = sum(1 for r in runs if r[-1].get("rc") not in (0, None))
+        return {"ok": ok, "bad": bad, "n": nev, "starts": started, "refused": refused}
+
+    def handle(res, tag):
+        if not res["ok"]:
+            b = res["bad"]
+            p = vlib.save_replay(prop, f"{tag}_{len(violations)}", {"property": prop, "kind": "election", **b})
+            violations.append({"replay": p, "what": "what the orchestrator process did (datagrams, starts of the server) is not a behaviour of "
+                               "Election.tla that satisfies C19: %s; observed %s" % (str(b["detail"])[:300], json.dumps(b["observed"])[:900])})
+
+    if replay:
+        pl = json.load(open(replay))
+        scs = pl["steps"] if pl["steps"] and isinstance(pl["steps"][0], list) else [pl["steps"]]
+        for k in range(5):          # timing differs from run to run
+            handle(run_config((k, pl["config"], scs)), "replay")
+            if violations:
+                break
+        return {"known": {}, "violations": violations}
+
+    # 1. every datagram sequence of a hostile environment, every placement of the timeouts (bounded)
+    t1 = time.time()
+    tot = {"distinct": 0, "generated": 0}
+    if not os.environ.get("VERIF_DEV_SKIP_MC"):
+        cfgs = ["MC_C19.cfg", "MC_C19_q3.cfg", "MC_C19_low.cfg"] if tier == "quick" else ["MC_C19_thorough.cfg", "MC_C19_q3.cfg", "MC_C19_low.cfg"]
+        for c in cfgs:
+            out = vlib.tlc(d, "MC_C19", open(os.path.join(vlib.SPEC, c)).read(), workers=8, timeout=3000, heap="8g")
+            err, st = vlib.tlc_error(out), vlib.tlc_stats(out)
+            if err or not st:
+                raise ToolError("model checking of Election (%s) failed: %s\n%s" % (c, err, out[-3000:]))
+            tot["distinct"] += st["distinct"]
+            tot["generated"] += st["generated"]
+    log(f"[{prop}] TLC Election (3 configurations): {tot['distinct']} distinct states, {tot['generated']} transitions, {time.time()-t1:.0f}s")
+    # 2. real orchestrator processes against scripted peers
+    t2 = time.time()
+    cfgs = orch.gen_configs(rnd, tier)
+    per = 4 if tier == "quick" else 12
+    work = [(i, c, [orch.gen_steps(rnd, c) for _ in range(per)]) for i, c in enumerate(cfgs)]
+    results = vlib.parallel(run_config, work, nproc=8)
+    nev = starts = refused = 0
+    for i, r in enumerate(results):
+        nev += r["n"]
+        starts += r["starts"]
+        refused += r["refused"]
+        handle(r, f"c{i}")
+    expected_refused = sum(per for c in cfgs if c["quorum"] > len(c["peers"]) + 1)
+    if refused > expected_refused + max(2, len(cfgs) * per // 10):
+        raise ToolError(f"{refused} orchestrator processes exited with an error (expected {expected_refused}): see {d}/orch_*/orch.err")
+    log(f"[{prop}] {len(cfgs)} cluster configurations x {per} scripted peer behaviours: {nev} observations, {starts} server starts, "
+        f"{refused} processes refused their configuration, {time.time()-t2:.0f}s")
+    cov = {"states": max(1, tot["distinct"]), "transitions": max(1, tot["generated"]),
+           "traces_validated_against_impl": len(cfgs) * per, "samples": [{"config": work[0][1], "steps": work[0][2][0]}], "exhaustive": False,
+           "trace_records_validated": nev, "server_starts_observed": starts,
+           "explanation": "TLC exhaustive on Election.tla (phases of the election code, inbox, timeouts as free steps) with C19 as step "
+                          "properties; real orchestrator processes (cluster sizes 1-7, default and configured quorums) against scripted UDP "
+                          "peers and a stub server executable, behaviour explained by TLC with receive/timeout/heartbeat as inferred steps"}
+    return {"coverage": cov, "known": {}, "violations": violations,
+            "assumptions": ["loopback UDP delivers in order and without loss", "configuration changes at run time (config file watcher) are not exercised",
+                            "priority is configured (not derived from the last-persisted file)",
+                            "the orchestrator is built from /repo through the harness' path dependency (bin wborch = main.rs of the orchestrator crate, without jemalloc)"]}
+
+
+CHECKS["C19"] = c19_check
+
+
 # ----------------------------------------------------------------------------- C16: aggregator
 AGG_TRACE_CFG = """SPECIFICATION TraceSpec
 CONSTANTS
